@@ -64,15 +64,15 @@ func (Engine) Simplify(p simkit.Plan) []simkit.Plan {
 }
 
 var relevant = map[string][]string{
-	"C01": {"probe:keyed_pick_home_ready", "probe:keyed_pick_home_down_nofallback", "probe:key_bound"},
+	"C01": {"probe:keyed_pick_home_ready", "probe:keyed_pick_home_down_nofallback", "probe:key_bound", "keyed_pick_started"},
 	"C02": {"ev:PickReturn"},
 	"C03": {"probe:pick_all_saturated", "ev:NewSubConn"},
 	"C04": {"ev:UpdateState"},
 	"C05": {"ev:PickReturn", "ev:OpEnd"},
 	"C06": {"ev:PickReturn", "ev:OpEnd"},
 	"C07": {"probe:client_deadline_completion", "probe:refresh_attempt", "fault:completion_client-deadline"},
-	"C08": {"probe:keyed_pick_home_down_fallback"},
-	"C09": {"probe:rr_pick", "probe:rr_pick_waiting"},
+	"C08": {"probe:keyed_pick_home_down_fallback", "keyed_pick_started"},
+	"C09": {"probe:rr_pick", "probe:rr_pick_waiting", "rr_bind_pick_started"},
 	"C10": {"ev:PickReturn"},
 	"C17": {"ev:PickReturn"},
 	"C20": {"ev:UpdateAddresses", "fault:resolver_error"},
